@@ -345,7 +345,6 @@ package hermes
 //@   requires method: 1 <= g.ETMETH && g.ETMETH <= 5
 //@   requires[C08] inputs: g.VERD[tag()] >= 0 && g.ETNULL[tag()] >= 0 && g.FKC >= 0 && g.FKB >= 0 && g.KCOA >= 0 && g.LAI >= 0
 //@   requires[C08] haude: forall(m, 0, 12, g.FKF[m] >= 0 && g.FKU[m] >= 0)
-//@   requires[C08] turc: g.ETMETH == 2 ==> g.TEMP[tag()] >= 0-22
 //@   requires[C08] sun: g.SUND[tag()] >= 0
 //@   requires[C08] rootdensity: forall(k, 0, 21, g.WUDICH[k] >= 0)
 //@   requires[C08] airstate: g.LUMDAY >= 0 && 0 <= g.ETREL && g.ETREL <= 1 && 0 <= g.TRREL && g.TRREL <= 1
